@@ -1,11 +1,13 @@
 #!/bin/sh
-# Warms the Go build cache for the harness packages (offline; files on disk only).
-# Every check rebuilds what it needs from /repo's working tree on each run, so a
-# failure to pre-build one package here is reported but does not fail the setup.
+# Warms the Go build cache for the harness packages (offline; files on disk only) with the
+# same flags ./check uses. Every check rebuilds what it needs from /repo's working tree on
+# each run, so a failure to pre-build one package here is reported but does not fail setup.
 cd "$(dirname "$0")/harness" || exit 1
 export GOFLAGS=-mod=mod GOPROXY=off GOTOOLCHAIN=auto
 unset GOSUMDB
+mkdir -p ../.build
 for d in props/*/; do
-  go test -tags verif -count=1 -run '^$' "./$d" >/dev/null 2>&1 || echo "warning: pre-build of $d failed (checks rebuild on demand)"
+  p=$(basename "$d")
+  go test -c -trimpath -tags verif -o "../.build/$p.test" "./props/$p" >/dev/null 2>&1 || echo "warning: pre-build of $p failed (checks rebuild on demand)"
 done
 echo setup ok
